@@ -1,5 +1,7 @@
 import NmVerif.Simd.Loop
 import NmVerif.Simd.LoopLemmas
+import NmVerif.Simd.ReduceLemmas
+import NmVerif.Simd.EnumLemmas
 /-
   C12 — SIMD evaluation equals scalar evaluation for every size, shape and layout.
   Only property statements (+ non-vacuity examples, counterexamples of known findings) live here.
@@ -112,11 +114,192 @@ theorem simdUnary_colMajor_counterexample :
     simdUnary 2 (fun xs => xs.map (· + 100)) (· + 100) ⟨[2,2], true, [0,1,2,3]⟩ [0,0,0,0]
       ≠ scalarUnary (· + 100) (⟨[2,2], true, [0,1,2,3]⟩ : NDA Nat) := by decide
 
+/-! ## eval_binary, operands of equal shape -/
+
+/-- **SIMD binary (same shape) = scalar evaluator**: every shape, every `lanes > 0`, row-major operands -/
+theorem simdBinarySame_eq_scalar (lanes : Nat) (hl : 0 < lanes) (packF : List α → List α → List β) (f : α → α → β)
+    (hpf : LaneWise2 lanes packF f)
+    (a b : NDA α) (hwa : a.WF) (hwb : b.WF) (hra : a.colMajor = false) (hrb : b.colMajor = false)
+    (hsh : b.shape = a.shape) (hs : Pos a.shape)
+    (out : List β) (ho : out.length = prod a.shape) :
+    simdBinarySame lanes packF f a b out = scalarBinarySame f a b := by
+  have hwa' : a.data.length = prod a.shape := hwa
+  have hwb' : b.data.length = prod a.shape := by rw [← hsh]; exact hwb
+  unfold scalarBinarySame
+  rw [logical_rowMajor a hwa hra hs, logical_rowMajor b hwb hrb (by rw [hsh]; exact hs)]
+  unfold simdBinarySame
+  have hn : (List.zipWith f a.data b.data).length = prod a.shape := by
+    rw [List.length_zipWith, hwa', hwb', Nat.min_self]
+  have := packed_then_tail (List.zipWith f a.data b.data) out lanes (prod a.shape) hl
+    (fun o i => do let l ← loadu a.data i lanes; let r ← loadu b.data i lanes; storeu o i (packF l r))
+    (fun o i => do
+      let x ← a.get? (ndindex a.shape i)
+      let y ← b.get? (ndindex a.shape i)
+      writeAt o (computeOffset (ndindex a.shape i) (strides a.shape)) (f x y))
+    hn ho
+    (by
+      intro k o hk
+      rw [loadu_eq (by rw [hwa']; exact hk), loadu_eq (by rw [hwb']; exact hk)]
+      simp only [Option.bind_eq_bind, Option.bind_some]
+      rw [hpf _ _ (by rw [List.length_take, List.length_drop]; omega) (by rw [List.length_take, List.length_drop]; omega)]
+      rw [List.drop_zipWith, List.take_zipWith])
+    (by
+      intro i o v hv
+      have hi : i < prod a.shape := by
+        have := (List.getElem?_eq_some_iff.1 hv).1
+        rw [hn] at this; exact this
+      rw [get?_ndindex_rowMajor a hra hs i hi]
+      have hb := get?_ndindex_rowMajor b hrb (by rw [hsh]; exact hs) i (by rw [hsh]; exact hi)
+      rw [hsh] at hb
+      rw [hb]
+      have hoff : computeOffset (ndindex a.shape i) (strides a.shape) = i := offset_indices hs hi
+      rw [hoff]
+      rw [List.getElem?_zipWith] at hv
+      cases hx : a.data[i]? with
+      | none => rw [hx] at hv; simp at hv
+      | some x =>
+        cases hy : b.data[i]? with
+        | none => rw [hx, hy] at hv; simp at hv
+        | some y => rw [hx, hy] at hv; simp at hv; simp [hv])
+  simpa using this
+
+/-! ## eval_reduction, one output element (axis = None, 1-d operands, …) -/
+
+/-- **full SIMD reduction = scalar left fold** over a commutative monoid `(op, e)`, for every element
+    count and every `lanes > 0` — *provided the literal `0` the code starts its accumulator from is the
+    identity `e`* (true for add, false for multiply: F15 / `simdReduceAll_multiply_counterexample`). -/
+theorem simdReduceAll_eq_fold (lanes : Nat) (hl : 0 < lanes) (packOp : List α → List α → List α)
+    (op : α → α → α) (e zero : α) (hm : IsCommMonoid op e) (hz : zero = e)
+    (hp : LaneWise2 lanes packOp op)
+    (a : NDA α) (hw : a.WF) (hr : a.colMajor = false) (hs : Pos a.shape) :
+    simdReduceAll lanes packOp op zero a = scalarReduceAll op a := by
+  subst hz
+  have hn : 0 < a.data.length := by rw [hw]; exact prod_pos hs
+  unfold scalarReduceAll
+  rw [logical_rowMajor a hw hr hs]
+  unfold simdReduceAll
+  dsimp only
+  rw [packedStarts_eq lanes _ hl]
+  obtain ⟨reg, hf, hlen, hsum⟩ := packed_reduce_fold hm packOp lanes hp a.data (a.data.length / lanes)
+    (Nat.div_mul_le_self _ _)
+  rw [hf]
+  simp only [Option.bind_eq_bind, Option.bind_some]
+  cases reg with
+  | nil => simp at hlen; omega
+  | cons r0 rs =>
+    simp only
+    have hM := Nat.div_mul_le_self a.data.length lanes
+    have ht := tail_reduce_fold op a.data (a.data.length - a.data.length / lanes * lanes)
+      (a.data.length / lanes * lanes) (rs.foldl op r0) (by omega)
+    simp only [Option.bind_eq_bind] at ht
+    rw [tailIdx, ht]
+    have h1 : rs.foldl op r0 = IsCommMonoid.msum op zero (r0 :: rs) := by
+      show rs.foldl op r0 = (r0 :: rs).foldl op zero
+      rw [List.foldl_cons, hm.id_left]
+    rw [h1, hsum, hm.foldl_eq, ← hm.msum_append, List.take_append_drop]
+    cases hd : a.data with
+    | nil => rw [hd] at hn; simp at hn
+    | cons x xs =>
+      simp only [Option.pure_def, Option.some.injEq]
+      show (x :: xs).foldl op zero = xs.foldl op x
+      rw [List.foldl_cons, hm.id_left]
+
+/-- F15 (known finding `reduce.full-from-zero`): `multiply.reduce(a, None)` through the SIMD evaluator is 0 -/
+theorem simdReduceAll_multiply_counterexample :
+    simdReduceAll 2 (List.zipWith (· * ·)) (· * ·) (0 : Int) ⟨[2,2], false, [1,2,3,4]⟩ = some 0
+      ∧ scalarReduceAll (· * ·) (⟨[2,2], false, [1,2,3,4]⟩ : NDA Int) = some 24 := by decide
+
+/-! ## eval_binary, two 2-d operands with broadcasting: the enumerator -/
+
+/-- **every output cell is written exactly once, in order**: the output blocks of the successive steps of
+    `binary_2d_simd_enumerator` (a register for PACKED, one cell for SCALAR) concatenate to `0 … R·oc − 1`,
+    for every lane count, every column count (also not a multiple of the lane count) and every row count. -/
+theorem binary2d_covers_once (N oc lr lc rr rc : Nat) (hN : 0 < N) :
+    (List.range (binary2dSize N oc lr rr)).flatMap (fun i =>
+        List.range' (binary2dAt N oc lr lc rr rc i).1.off (stepLen N (binary2dAt N oc lr lc rr rc i).1))
+      = List.range ((binary2dShape N oc lr rr).1 * oc) := by
+  have h := (binary2d_contig N oc lr lc rr rc (binary2dShape N oc lr rr).1).blocks
+  simp only [Nat.sub_zero] at h
+  rw [List.range_eq_range' (n := (binary2dShape N oc lr rr).1 * oc), ← h]
+  rfl
+
+/-- **operand offsets are the ones NumPy broadcasting prescribes**: at every step and every lane of it, the lhs / rhs
+    buffer element that is combined into output cell `o` is `bcastOff` of `o`, for operands `(R|1, oc|1)` other than
+    a `(1,1)` operand under a multi-row result (`OperandOK`; the excluded case is `binary2d_bcast1x1_counterexample`). -/
+theorem binary2d_operand_offsets (N oc lr lc rr rc : Nat) (hN : 0 < N)
+    (hl : OperandOK (binary2dShape N oc lr rr).1 oc lr lc) (hr : OperandOK (binary2dShape N oc lr rr).1 oc rr rc)
+    (i : Nat) (hi : i < binary2dSize N oc lr rr) (j : Nat) (hj : j < stepLen N (binary2dAt N oc lr lc rr rc i).1) :
+    laneOff (binary2dAt N oc lr lc rr rc i).2.1 j = bcastOff lr lc oc ((binary2dAt N oc lr lc rr rc i).1.off + j)
+    ∧ laneOff (binary2dAt N oc lr lc rr rc i).2.2 j = bcastOff rr rc oc ((binary2dAt N oc lr lc rr rc i).1.off + j) := by
+  unfold binary2dSize at hi
+  have hCs : 0 < (binary2dShape N oc lr rr).2 := by
+    rcases Nat.eq_zero_or_pos (binary2dShape N oc lr rr).2 with h | h
+    · rw [h] at hi; simp at hi
+    · exact h
+  have hsc : i % (oc / N + oc % N) < oc / N + oc % N := Nat.mod_lt _ hCs
+  have hrr : i / (oc / N + oc % N) < (binary2dShape N oc lr rr).1 :=
+    (Nat.div_lt_iff_lt_mul hCs).2 hi
+  have hi' : i = (i / (oc / N + oc % N)) * (oc / N + oc % N) + i % (oc / N + oc % N) := by
+    have := Nat.div_add_mod i (oc / N + oc % N); rw [Nat.mul_comm] at this; omega
+  generalize i / (oc / N + oc % N) = r at hrr hi'
+  generalize i % (oc / N + oc % N) = sc at hsc hi'
+  subst hi'
+  rw [binary2dAt_row _ _ _ _ _ _ _ _ hsc] at hj ⊢
+  have hout : (binary2d N r sc oc lr lc rr rc).1.off
+      = (if sc < oc / N then sc * N else oc / N * N + (sc - oc / N)) + r * oc := by
+    by_cases h : sc < oc / N
+    · rw [binary2d_out_packed _ _ _ _ _ _ _ _ h, if_pos h]
+    · rw [binary2d_out_scalar _ _ _ _ _ _ _ _ (by omega), if_neg h]
+  have hlen : stepLen N (binary2d N r sc oc lr lc rr rc).1 = (if sc < oc / N then N else 1) := by
+    by_cases h : sc < oc / N
+    · rw [binary2d_out_packed _ _ _ _ _ _ _ _ h, if_pos h]; simp [stepLen]
+    · rw [binary2d_out_scalar _ _ _ _ _ _ _ _ (by omega), if_neg h]; simp [stepLen, Tag.SCALAR, Tag.PACKED]
+  rw [hlen] at hj
+  have e : (if sc < oc / N then sc * N else oc / N * N + (sc - oc / N)) + r * oc + j
+      = (if sc < oc / N then sc * N else oc / N * N + (sc - oc / N)) + j + r * oc := by omega
+  rw [hout, e]
+  exact ⟨binary2dOperand_lane N r sc oc _ lr lc j hN hrr hsc hl hj,
+         binary2dOperand_lane N r sc oc _ rr rc j hN hrr hsc hr hj⟩
+
+/-- the broadcast-rule offsets lie inside the operand buffer, and the written cells inside the output:
+    with `binary2d_covers_once` / `binary2d_operand_offsets`, no step of the enumerator leaves a buffer -/
+theorem bcastOff_in_bounds (R oc rows cols o : Nat) (hoc : 0 < oc) (hok : OperandOK R oc rows cols)
+    (hrows : 0 < rows) (ho : o < R * oc) : bcastOff rows cols oc o < rows * cols := by
+  obtain ⟨hc, hrw, _⟩ := hok
+  unfold bcastOff
+  have hcols : 0 < cols := by rcases hc with h | h <;> omega
+  have h1 : (if rows = 1 then 0 else o / oc) < rows := by
+    by_cases h : rows = 1
+    · simp [h]
+    · rw [if_neg h]
+      have : rows = R := by rcases hrw with h' | h'; exact h'; exact absurd h' h
+      rw [this]; exact (Nat.div_lt_iff_lt_mul hoc).2 ho
+  have h2 : (if cols = 1 then 0 else o % oc) < cols := by
+    by_cases h : cols = 1
+    · simp [h]
+    · rw [if_neg h]
+      have : cols = oc := by rcases hc with h' | h'; exact h'; exact absurd h' h
+      rw [this]; exact Nat.mod_lt _ hoc
+  generalize (if rows = 1 then 0 else o / oc) = a at h1
+  generalize (if cols = 1 then 0 else o % oc) = b at h2
+  have : (a + 1) * cols ≤ rows * cols := Nat.mul_le_mul_right cols h1
+  rw [Nat.succ_mul] at this
+  omega
+
+/-- known finding `binary.bcast-1x1`: a `(1,1)` rhs under a 2-row result is indexed by the row number:
+    the model's evaluator leaves the operand buffer (`none`) where NumPy broadcasting reads element 0 -/
+theorem binary2d_bcast1x1_counterexample :
+    (binary2dAt 4 2 2 2 1 1 2).2.2 = ⟨Tag.SCALAR, 1⟩ ∧ (binary2dAt 4 2 2 2 1 1 2).1.off = 2 ∧ bcastOff 1 1 2 2 = 0 := by decide
+
 /-! non-vacuity -/
 example : LaneWise1 4 (fun xs : List Nat => xs.map (· + 1)) (· + 1) := fun _ _ => rfl
 example : (⟨[2,5], false, List.range 10⟩ : NDA Nat).WF ∧ Pos [2,5] := ⟨by simp [NDA.WF, prod], by decide⟩
 example : simdUnary 4 (fun xs => xs.map (· + 1)) (· + 1) ⟨[2,5], false, List.range 10⟩ (List.replicate 10 0)
     = some ((List.range 10).map (· + 1)) := by decide
 example : packedStarts 4 10 = [0,4] ∧ tailIdx 4 10 = [8,9] := by decide
+example : IsCommMonoid (· + ·) (0 : Int) := ⟨Int.add_assoc, Int.add_comm, Int.zero_add⟩
+example : IsCommMonoid (· * ·) (1 : Int) := ⟨Int.mul_assoc, Int.mul_comm, Int.one_mul⟩
+example : LaneWise2 4 (List.zipWith (· + ·)) (fun a b : Int => a + b) := fun _ _ _ _ => rfl
+example : simdReduceAll 4 (List.zipWith (· + ·)) (· + ·) (0 : Int) ⟨[2,5], false, [1,2,3,4,5,6,7,8,9,10]⟩ = some 55 := by decide
 
 end NmVerif.Props.C12
